@@ -54,6 +54,6 @@ func init() {
 				"targets are the stores that implement case detection (map-backed Reflect, nodeutil.Node over maps and structs, control)",
 				"a failing Choose of the target is excluded from the one-case oracle: the editor documents that it proceeds without clearing (recorded under C12)",
 				"defaults are not generated inside cases (a default would select a case implicitly)",
-			}, 2500)
+			}, 4000)
 	}
 }
